@@ -42,6 +42,8 @@ type InlineStats struct {
 	Left     map[string]int // callee key -> references left (unsupported position, function value, exported API)
 	Removed  []string       // helper declarations removed (no reference left)
 	Disabled string         // non-empty: inlining was abandoned, with the reason
+	Threaded int            // return sites of inlined helpers specialised for the caller's test (inline_thread.go)
+	Lowered  int            // short-circuit operators lowered to if statements to reach a helper call
 }
 
 func (s *InlineStats) String() string {
@@ -65,8 +67,8 @@ func (s *InlineStats) String() string {
 	for _, v := range s.Left {
 		left += v
 	}
-	return fmt.Sprintf("helper inlining: %d call site(s) of %d non-baseline function(s) inlined in %d round(s) [%s]; %d reference(s) left as calls; %d helper declaration(s) removed",
-		n, len(s.Inlined), s.Rounds, strings.Join(names, ", "), left, len(s.Removed))
+	return fmt.Sprintf("helper inlining: %d call site(s) of %d non-baseline function(s) inlined in %d round(s) [%s]; %d reference(s) left as calls; %d helper declaration(s) removed; %d return site(s) threaded into the caller's test; %d short-circuit operator(s) lowered",
+		n, len(s.Inlined), s.Rounds, strings.Join(names, ", "), left, len(s.Removed), s.Threaded, s.Lowered)
 }
 
 func declKey(d *ast.FuncDecl) string {
@@ -107,6 +109,8 @@ type inliner struct {
 	curFile  *ast.File
 	fileImps map[*ast.File]map[string]string // file -> import path -> local name
 	skip     map[*ast.CallExpr]bool
+	skipLower map[*ast.BinaryExpr]bool
+	exps     []*expansion // helpers inlined into the statement being processed
 	stats    *InlineStats
 	seq      *int
 	done     int
@@ -118,7 +122,7 @@ func isTestFile(pk *packages.Package, f *ast.File) bool {
 
 func newInliner(pk *packages.Package, stats *InlineStats, seq *int) *inliner {
 	in := &inliner{pk: pk, info: pk.TypesInfo, cands: map[*types.Func]*ast.FuncDecl{},
-		fileImps: map[*ast.File]map[string]string{}, skip: map[*ast.CallExpr]bool{}, stats: stats, seq: seq}
+		fileImps: map[*ast.File]map[string]string{}, skip: map[*ast.CallExpr]bool{}, skipLower: map[*ast.BinaryExpr]bool{}, stats: stats, seq: seq}
 	for _, f := range pk.Syntax {
 		if isTestFile(pk, f) {
 			continue
@@ -233,11 +237,30 @@ func (in *inliner) run() int {
 func (in *inliner) processList(list []ast.Stmt) []ast.Stmt {
 	changed := false
 	out := make([]ast.Stmt, 0, len(list)+4)
-	for _, s := range list {
+	for i, s := range list {
+		in.exps = nil
 		pre, s2 := in.processStmt(s)
 		if len(pre) > 0 || s2 != s {
 			changed = true
 		}
+		if len(in.exps) > 0 && s2 != nil {
+			// jump threading: the test that consumes the helper's results (inline_thread.go)
+			if ifs, ok := s2.(*ast.IfStmt); ok {
+				for _, e := range in.exps {
+					in.thread(e, nil, ifs)
+				}
+			} else if i+1 < len(list) {
+				if ifs, ok := list[i+1].(*ast.IfStmt); ok {
+					switch s2.(type) {
+					case *ast.AssignStmt, *ast.DeclStmt:
+						for _, e := range in.exps {
+							in.thread(e, s2, ifs)
+						}
+					}
+				}
+			}
+		}
+		in.exps = nil
 		out = append(out, pre...)
 		if s2 != nil {
 			out = append(out, s2)
@@ -262,7 +285,13 @@ func (in *inliner) processStmt(s ast.Stmt) ([]ast.Stmt, ast.Stmt) {
 		return pre, x
 	case *ast.IfStmt:
 		if ei, ok := x.Else.(*ast.IfStmt); ok {
+			saved := in.exps
+			in.exps = nil
 			pre, e2 := in.processStmt(ei)
+			for _, e := range in.exps {
+				in.thread(e, nil, ei)
+			}
+			in.exps = saved
 			if len(pre) > 0 {
 				x.Else = &ast.BlockStmt{Lbrace: ei.Pos(), List: append(pre, e2), Rbrace: ei.End()}
 			}
@@ -273,6 +302,17 @@ func (in *inliner) processStmt(s ast.Stmt) ([]ast.Stmt, ast.Stmt) {
 		site := in.findSite(s)
 		if site == nil {
 			break
+		}
+		if site.lower != nil {
+			p, repl, ok := in.expandLower(s, site)
+			if !ok {
+				in.skipLower[site.lower] = true
+				continue
+			}
+			pre = append(pre, p...)
+			in.done++
+			s = repl
+			continue
 		}
 		p, repl, ok := in.expand(s, site)
 		if !ok {
@@ -296,6 +336,65 @@ type callSite struct {
 	fn    *types.Func
 	decl  *ast.FuncDecl
 	spill []*ast.Expr // calls/receives evaluated before the site in this statement, in order
+	lower *ast.BinaryExpr // non-nil: not a call site but a `X && Y` / `X || Y` whose Y holds a helper call
+}
+
+// containsCandidate: e (outside function literals) contains a call of an inlinable function.
+func (in *inliner) containsCandidate(e ast.Expr) bool {
+	found := false
+	ast.Inspect(e, func(n ast.Node) bool {
+		switch x := n.(type) {
+		case *ast.FuncLit:
+			return false
+		case *ast.CallExpr:
+			if fn := in.calleeOf(x); fn != nil && in.cands[fn] != nil && !in.skip[x] {
+				found = true
+			}
+		}
+		return !found
+	})
+	return found
+}
+
+func (in *inliner) spillable(spill []*ast.Expr) bool {
+	for _, sl := range spill {
+		tv, ok := in.info.Types[*sl]
+		if !ok || tv.Type == nil {
+			return false
+		}
+		if _, isTuple := tv.Type.(*types.Tuple); isTuple {
+			return false
+		}
+		if b, isB := tv.Type.(*types.Basic); isB && b.Kind() == types.Invalid {
+			return false
+		}
+	}
+	return true
+}
+
+// expandLower rewrites `X op Y` (op is && or ||) in statement s into a temporary computed by an if statement.
+func (in *inliner) expandLower(s ast.Stmt, site *callSite) ([]ast.Stmt, ast.Stmt, bool) {
+	e := site.lower
+	if !in.spillable(site.spill) {
+		return nil, nil, false
+	}
+	var pre []ast.Stmt
+	for _, sl := range site.spill {
+		t := "t" + in.fresh("")
+		pre = append(pre, &ast.AssignStmt{Lhs: []ast.Expr{nid(t)}, Tok: token.DEFINE, Rhs: []ast.Expr{*sl}})
+		*sl = nid(t)
+	}
+	t := "c" + in.fresh("")
+	pre = append(pre, &ast.AssignStmt{Lhs: []ast.Expr{nid(t)}, TokPos: e.OpPos, Tok: token.DEFINE, Rhs: []ast.Expr{e.X}})
+	var cond ast.Expr = nid(t)
+	if e.Op == token.LOR {
+		cond = &ast.UnaryExpr{OpPos: e.OpPos, Op: token.NOT, X: nid(t)}
+	}
+	pre = append(pre, &ast.IfStmt{If: e.OpPos, Cond: cond, Body: &ast.BlockStmt{Lbrace: e.OpPos, Rbrace: e.OpPos,
+		List: []ast.Stmt{&ast.AssignStmt{Lhs: []ast.Expr{nid(t)}, TokPos: e.OpPos, Tok: token.ASSIGN, Rhs: []ast.Expr{e.Y}}}}})
+	*site.slot = nid(t)
+	in.stats.Lowered++
+	return pre, s, true
 }
 
 func immediateSlots(s ast.Stmt) []*ast.Expr {
@@ -476,6 +575,12 @@ func (w *siteWalker) expr(slot *ast.Expr) {
 			return
 		}
 		if e.Op == token.LAND || e.Op == token.LOR {
+			if w.in.containsCandidate(e.Y) && !w.in.skipLower[e] {
+				// lower `X && Y` to `t := X; if t { t = Y }` so that the helper call in Y becomes an
+				// ordinary statement-level call (expandLower)
+				w.found = &callSite{slot: slot, lower: e, spill: w.earlier}
+				return
+			}
 			if hasCallOrRecv(e.Y) {
 				w.stop = true // conditionally evaluated: nothing in or after it may be hoisted
 			}
@@ -712,7 +817,13 @@ func (in *inliner) expand(s ast.Stmt, site *callSite) ([]ast.Stmt, ast.Stmt, boo
 	}
 	ast.Inspect(decl.Body, visit)
 	c.label = "L" + suffix
+	c.cf = in.factsOf(decl)
 	body := c.stmtList(decl.Body.List)
+	exp := &expansion{label: c.label, sites: c.sites, switchMode: c.switchMode}
+	for _, t := range temps {
+		exp.temps = append(exp.temps, t.(*ast.Ident).Name)
+	}
+	in.exps = append(in.exps, exp)
 	all := append(binds, body...)
 	at := call.Pos()
 	if c.switchMode {
@@ -853,6 +964,9 @@ type copier struct {
 	label      string
 	switchMode bool
 	depth      int
+	hostCopy   bool         // plain copy of caller statements: returns are left alone
+	cf         *calleeFacts // facts used to classify returned values (inline_thread.go)
+	sites      []*retSite
 }
 
 var (
@@ -880,7 +994,7 @@ func (c *copier) stmtList(l []ast.Stmt) []ast.Stmt {
 }
 
 func (c *copier) stmt(s ast.Stmt) ast.Stmt {
-	if rs, ok := s.(*ast.ReturnStmt); ok && c.depth == 0 {
+	if rs, ok := s.(*ast.ReturnStmt); ok && c.depth == 0 && !c.hostCopy {
 		return c.ret(rs)
 	}
 	return c.value(reflect.ValueOf(s)).Interface().(ast.Stmt)
@@ -901,7 +1015,19 @@ func (c *copier) ret(rs *ast.ReturnStmt) ast.Stmt {
 	if c.switchMode {
 		out = append(out, &ast.BranchStmt{TokPos: rs.Return, Tok: token.BREAK, Label: nid(c.label)})
 	}
-	return &ast.BlockStmt{Lbrace: rs.Return, List: out, Rbrace: rs.End()}
+	blk := &ast.BlockStmt{Lbrace: rs.Return, List: out, Rbrace: rs.End()}
+	if c.cf != nil {
+		site := &retSite{blk: blk}
+		if len(rs.Results) == len(c.resNames) {
+			for _, r := range rs.Results {
+				site.vals = append(site.vals, c.in.classify(c.cf, rs, r))
+			}
+		} else {
+			site.vals = make([]absVal, len(c.resNames)) // bare return / tuple call: unknown
+		}
+		c.sites = append(c.sites, site)
+	}
+	return blk
 }
 
 func (c *copier) ident(id *ast.Ident) *ast.Ident {
@@ -930,7 +1056,7 @@ func (c *copier) value(v reflect.Value) reflect.Value {
 		}
 		el := v.Elem()
 		var nv reflect.Value
-		if el.Type() == returnPtrType && c.depth == 0 {
+		if el.Type() == returnPtrType && c.depth == 0 && !c.hostCopy {
 			nv = reflect.ValueOf(c.ret(el.Interface().(*ast.ReturnStmt)))
 		} else {
 			nv = c.value(el)
